@@ -82,7 +82,7 @@ Proof.
   exists (mkFs (Some (mkShard [mkRepo 7 1 false [] 0] [])) None 0), 7%N, true, RenameFails.
   eexists. split; [reflexivity|].
   exists [mkRepo 7 1 false [] 0], (mkRepo 7 1 false [] 0).
-  repeat split; simpl; auto. discriminate.
+  split; [reflexivity|]. split; [left; reflexivity|]. split; [reflexivity|]. simpl. discriminate.
 Qed.
 
 Theorem error_unchanged : forall f id b ft f' e,
@@ -208,13 +208,16 @@ Proof.
 Qed.
 
 (** ---- search *)
+Lemma filter_len_le : forall {A} (P : A -> bool) l, length (filter P l) <= length l.
+Proof. induction l as [|a l IH]; simpl; [lia|]. destruct (P a); simpl; lia. Qed.
+
 Lemma filter_all_length : forall {A} (P : A -> bool) l,
   length (filter P l) = length l -> forall x, In x l -> P x = true.
 Proof.
   induction l as [|a l IH]; intros H x Hin; [contradiction|].
   simpl in *. destruct (P a) eqn:Pa.
   - simpl in H. destruct Hin as [->|Hin]; [exact Pa|]. apply IH; [lia|exact Hin].
-  - pose proof (filter_length_le P l). lia.
+  - pose proof (filter_len_le P l). lia.
 Qed.
 
 Lemma filter_none_length : forall {A} (P : A -> bool) l,
